@@ -13,7 +13,7 @@ import (
 // VerifFSHook is called BEFORE every operation by which the library mutates
 // the database directory. op is one of "open" (O_CREATE open; off = requested
 // capacity or 0), "truncate" (off = new size), "write" (off, data), "sync",
-// "close", "remove". If it returns handled == true the real operation is
+// "close", "remove", "syncdir" (fsync of the directory at path). If it returns handled == true the real operation is
 // skipped and (n, err) is returned to the caller instead (fault injection).
 //
 // VerifYieldHook is called at named points between critical sections.
